@@ -270,6 +270,21 @@ class ExprMixin:
                     return f
         if opname in ("Is", "IsNot"):
             for a, b in ((l, r), (r, l)):
+                if b.op == "Const" and b.attr is None and a.op == "Phi":
+                    # Optional value chosen by branches: `x is None` is the condition under which None was chosen
+                    leaves_ = []
+
+                    def rec_(n_, d_=0):
+                        if n_.op == "Phi" and d_ < 8:
+                            rec_(n_.args[1], d_ + 1)
+                            rec_(n_.args[2], d_ + 1)
+                        else:
+                            leaves_.append(n_)
+                    rec_(a)
+                    if all(x.op != "Phi" and self.not_none(x) is not None for x in leaves_):
+                        f = self._bool_of_phi(a, lambda x: not self.not_none(x), site)
+                        return f if opname == "Is" else self._not(f, site)
+            for a, b in ((l, r), (r, l)):
                 if b.op == "Const" and b.attr is None:
                     nn = self.not_none(a)
                     if nn is not None:
